@@ -17,6 +17,7 @@ import (
 	"k8s.io/apiserver/pkg/authorization/authorizer"
 
 	"github.com/kubewharf/kubegateway/pkg/clusters"
+	"github.com/kubewharf/kubegateway/pkg/gateway/controllers"
 )
 
 const c03Cluster = "c03.example.com"
@@ -159,7 +160,9 @@ func runHist(c c03Case) interface{} {
 	for _, op := range c.Ops {
 		st := c03Step{Res: "ok", Picked: -1, Code: 0, Stub: -1}
 		switch op.Op {
-		case "sync":
+		case "sync", "redeliver":
+			// redeliver: a superseded version of the object (a stale queue item) reaches the sync handler while
+			// the lister holds the latest one; the handler must act on the latest object, not on the item
 			var servers []serverSpec
 			for _, sv := range op.Servers {
 				servers = append(servers, serverSpec{URL: epURL(sv[0]), Disabled: sv[1] != 0})
@@ -172,7 +175,11 @@ func runHist(c c03Case) interface{} {
 					}
 				}
 			}
-			if err := g.apply(clusterObject(c03Cluster, servers, subsets)); err != nil {
+			if op.Op == "redeliver" {
+				if err := controllers.VerifC03Sync(g.ctrl, clusterObject(c03Cluster, servers, subsets)); err != nil {
+					st.Res = "err"
+				}
+			} else if err := g.apply(clusterObject(c03Cluster, servers, subsets)); err != nil {
 				st.Res = "err"
 			}
 		case "tick":
